@@ -156,6 +156,13 @@ def check(case, rec):
             return
         full_e = np.asarray(full_e)
         full_l = np.asarray(full_l)
+        held = []       # (request, array as returned, its bytes when returned): later reads must not change earlier results
+
+        def hold(request, arr):
+            if isinstance(arr, np.ndarray):
+                held.append((request, arr, arr.tobytes()))
+        hold('eager [:]', full_e)
+        hold('lazy [:]', full_l)
         if len(full_e) != len(raw) or len(full_l) != len(raw):
             rec.violation('length', 'scaled data has %d / %d values, raw has %d' % (len(full_e), len(full_l), len(raw)))
             return
@@ -182,12 +189,14 @@ def check(case, rec):
         # 3. elementwise: all windows
         n = len(raw)
         if n <= 8:
-            for o in range(0, n + 1):
-                for l in range(0, n - o + 1):
+            # equally long windows follow one another, so that a result buffer reused between calls would show
+            for l in range(0, n + 1):
+                for o in range(0, n - l + 1):
                     for mode, ch, full in (('lazy', chl, full_l), ('eager', che, full_e)):
                         ok, win = rec.guard('window:' + mode, lambda: ch.read_data(o, l))
                         if not ok:
                             return
+                        hold('%s read_data(%d,%d)' % (mode, o, l), win)
                         if le_bytes(np.asarray(win)) != le_bytes(full[o:o + l]):
                             rec.violation('elementwise:' + mode, 'read_data(%d,%d) = %r but scaled[%d:%d] = %r' % (
                                 o, l, np.asarray(win), o, o + l, full[o:o + l]))
@@ -207,6 +216,11 @@ def check(case, rec):
                 rec.violation('raw_modified', '%s after scaled reads is %r, the file holds %r' % (name, np.asarray(r)[:4], raw[:4]))
         if raw_before != raw.tobytes():
             rec.violation('raw_modified', 'raw_data differs from the file content before any scaled read')
+        for (request, arr, snap) in held:
+            if arr.tobytes() != snap:
+                rec.violation('result_mutated', 'the array returned by %s was changed by later reads of the channel: it held %r, '
+                              'now %r' % (request, np.frombuffer(snap, dtype=arr.dtype)[:4], arr[:4]))
+                break
     finally:
         tf_l.close()
 
@@ -215,7 +229,7 @@ def check(case, rec):
 def daqmx_graph_cases(draw):
     """a raw DAQmx channel with k scalers; NI_Scale[k..] are structural scales whose inputs are scaler ids or lower scales"""
     from vf.daqmx import daqmx_file
-    fs = draw(daqmx_file(max_segments=2, max_channels=1, max_buffers=2, max_len=4, max_chunks=2))
+    fs = draw(daqmx_file(max_segments=2, max_channels=1, max_buffers=2, max_len=4, max_chunks=2, carry=False))
     ent0 = fs['segments'][0]['entries'][0]
     k = len(ent0['scalers'])
     extra = draw(SC.scale_graph('f64', max_scales=3, types=('Linear', 'Polynomial', 'Table', 'Add', 'Subtract')))
